@@ -56,13 +56,13 @@ Print Assumptions C06_unbound_typevar_nullable.
 (* non-vacuity: Annotated[Final[Optional[int]]] without default under omit_none is not required;
    Literal[1, None] = None is nullable through its default *)
 Example C06_required_nonvacuous :
-  frequired true (mkF "x" "x" (TUnion [TInt; TNone]) false true None false None) = false /\
-  frequired false (mkF "x" "x" (TUnion [TInt; TNone]) false true None false None) = true /\
+  frequired true (mkF "x" "x" (TUnion [TInt; TNone]) false true None false None false) = false /\
+  frequired false (mkF "x" "x" (TUnion [TInt; TNone]) false true None false None false) = true /\
   is_field_nullable (wrap [true; false] (FCore (core_of_ty (TUnion [TInt; TNone])))) false = true /\
-  fnullable (mkF "w" "w" (TLit [JInt 1; JNull]) true true None true None) = true /\
-  fnullable (mkF "w" "w" (TLit [JInt 1; JNull]) false true None false None) = false /\
+  fnullable (mkF "w" "w" (TLit [JInt 1; JNull]) true true None true None false) = true /\
+  fnullable (mkF "w" "w" (TLit [JInt 1; JNull]) false true None false None false) = false /\
   (* Union[int, None, str] (three members): nullable since /repo 906a805, hence not required under omit_none *)
-  frequired true (mkF "u" "u" (TUnion [TInt; TNone; TStr]) false true None false None) = false /\
+  frequired true (mkF "u" "u" (TUnion [TInt; TNone; TStr]) false true None false None false) = false /\
   is_field_nullable (FCore (core_of_ty (TUnion [TInt; TNone; TStr]))) false = true /\
   (* x: T in G[Optional[int]] / G[int] / G[None] / G[Union[str, None, int]] (agreement examples of fix 4da7e9e) *)
   is_field_nullable (FCore (core_of_tv (Some (TUnion [TInt; TNone])))) false = true /\
